@@ -413,13 +413,48 @@ def replay_chunk(chunk):
     return res
 
 
+def page_environments(groups, la, res):
+    """C09, document route: the same arrangements on pages with /Rotate 0, 90, 180, 270 and a media box that is not square
+    (text beyond the short side).  The grouping must be the specification's: which lines join does not depend on how the
+    page is turned.  Every eligible arrangement goes to one of the four rotations."""
+    elig = [rs for rs in groups if R.env_eligible(rs[0]) and not (rs[0].get("_sim") and any(r.get("tie") for r in rs))]
+    for ri, rot in enumerate(R.ENV_ROTATIONS):
+        part = elig[ri::len(R.ENV_ROTATIONS)]
+        if not part:
+            continue
+        data = R.pdf_of([rs[0] for rs in part], 1, env=rot)
+        pages = R.pdf_pages(data, la)
+        res["docs"] += 1
+        if len(pages) != len(part):
+            raise MachineryError("generated PDF has %d pages, expected %d" % (len(pages), len(part)))
+        seen = R.env_page(rot, 1)[2]
+        for pg, rs in zip(pages, part):
+            rec = rs[0]
+            outs = {(R.model_out(r), R.model_groups(r)) for r in rs} | {(R.model_out(r, True), R.model_groups(r)) for r in rs}
+            chars = []
+            got = (R.project_pdf_page(pg, rec, 1, dx=R.ENV_DX, chars_out=chars), R.proj_groups(pg, 1, dx=R.ENV_DX))
+            res["pages"] += 1
+            res["env_pages"] += 1
+            if got in outs:
+                continue
+            fails = O.c09_failures(pg, [c for _, c in sorted(chars, key=lambda x: x[0])], la, bounds=seen)
+            case = dict(short(rec), route="pdf", rotate=rot, page_bbox=repr(tuple(pg.bbox)), observed=repr(got)[:1000])
+            if fails:
+                for key, msg in fails:
+                    res["viol"].append((key, msg + " (page with /Rotate %d, page box %r)" % (rot, tuple(pg.bbox)), case))
+            elif canon(got) in {canon(o) for o in outs}:
+                res["gridties"] += 1
+            else:
+                res["mismatch"].append(dict(case, model=repr(sorted(outs)[0])[:800]))
+
+
 def replay_pdf_chunk(job):
     """job: (groups sharing one LAParams, scales, with_text) -> counters/findings.  One document per scale,
     one page per arrangement."""
     groups, scales, with_text = job
     groups = [parse_group(g) for g in groups]
     mode = _W["mode"]
-    res = {"pages": 0, "docs": 0, "mismatch": [], "viol": [], "dev": 0, "text": 0, "scalecmp": 0, "gridties": 0}
+    res = {"pages": 0, "docs": 0, "mismatch": [], "viol": [], "dev": 0, "text": 0, "scalecmp": 0, "gridties": 0, "env_pages": 0}
     if not groups:
         return res
     la = R.la_of(groups[0][0]["p"])
@@ -464,6 +499,8 @@ def replay_pdf_chunk(job):
                 if texts[i] + "\f" not in want and not sampled:
                     res["viol"].append(("text-concat", "extract_text of the page is not the concatenation of its boxes' text",
                                         dict(short(rec), scale=str(scale), observed=texts[i][:300], expected=sorted(want)[0][:300])))
+    if mode == "C09":
+        page_environments(groups, la, res)
     if mode == "C09" and len(scales) > 1:
         for i, d in per_scale.items():
             if len({(R.model_out(r), R.model_groups(r)) for r in groups[i]}) > 1 or \
@@ -581,7 +618,7 @@ def direction_a(ck, mode, invariants, dev, pdf_every, pdf_scales, pdf_text_every
     paths, names = bucketize(ck, sorted(outs, key=lambda x: x[0] == "simulate"))
     tot = {"n": 0, "runs": 0, "dev": 0, "tie": 0, "tie_real": 0, "colpage": 0, "scalecmp": 0, "pred_evals": 0, "sim_tie": 0, "gridties": 0,
            "alias_runs": 0, "alias_skipped": 0, "variant_runs": 0}
-    pdf = {"pages": 0, "docs": 0, "dev": 0, "text": 0, "scalecmp": 0, "gridties": 0}
+    pdf = {"pages": 0, "docs": 0, "dev": 0, "text": 0, "scalecmp": 0, "gridties": 0, "env_pages": 0}
     per_family = {}
     mismatches = []
     nmis = [0]
@@ -629,6 +666,7 @@ def direction_a(ck, mode, invariants, dev, pdf_every, pdf_scales, pdf_text_every
         ck.extra["extreme_laparams_runs_skipped_after_timeouts"] = tot["alias_skipped"]
     ck.extra["pdf_pages_analysed"] = pdf["pages"]
     ck.extra["pdf_documents"] = pdf["docs"]
+    ck.extra["pdf_pages_on_rotated_nonsquare_pages"] = pdf["env_pages"]
     ck.extra["pdf_extract_text_pages"] = pdf["text"]
     ck.extra["real_predicate_evaluations"] = tot["pred_evals"]
     ck.extra["ascoded_deviation_hits"] = tot["dev"] + pdf["dev"]
